@@ -223,6 +223,17 @@ func (r *run) exec() {
 		r.w.Register(&sim.Node{Type: "sim", Name: "dst2"})
 	}
 
+	for _, bi := range r.cfg.Pre {
+		if bi >= 0 && bi < len(r.pool) {
+			r.w.Store("src").Put(r.pool[bi].Ref.String(), r.pool[bi].Data)
+		}
+	}
+	for _, bi := range r.cfg.PreDst {
+		if bi >= 0 && bi < len(r.pool) {
+			r.w.Store("dst").Put(r.pool[bi].Ref.String(), r.pool[bi].Data)
+		}
+	}
+
 	segStart, segNo := 0, 0
 	for {
 		end := len(r.ops)
